@@ -91,6 +91,24 @@ pub enum WalRecord {
         /// Transaction ID at checkpoint.
         tx_id: TxId,
     },
+
+    // New variants go below: a record is stored with the index of its variant, so the
+    // existing ones keep their position.
+    /// Remove a property from a node.
+    RemoveNodeProperty {
+        /// Node ID.
+        id: NodeId,
+        /// Property key.
+        key: String,
+    },
+
+    /// Remove a property from an edge.
+    RemoveEdgeProperty {
+        /// Edge ID.
+        id: EdgeId,
+        /// Property key.
+        key: String,
+    },
 }
 
 #[cfg(test)]
